@@ -166,7 +166,7 @@ fn bytes_eq(a: &[u8; L], la: usize, b: &[u8; L], lb: usize) -> bool {
 /// printable-ASCII signature strings up to length L: identical text => the installation reaches the core
 /// exactly once; any difference => "Signature mismatch" panic raised before any OS event, memory untouched.
 #[kani::proof]
-#[kani::unwind(14)]
+#[kani::unwind(18)]
 #[kani::stub(crate::injector_core::internal::WhenCalled::will_execute_guard, rec_will_execute_guard)]
 fn c09_gate_raw() {
     fresh_world();
@@ -191,7 +191,7 @@ fn c09_gate_raw() {
 
 /// same gate through `will_execute` (the fake! pair form)
 #[kani::proof]
-#[kani::unwind(14)]
+#[kani::unwind(18)]
 #[kani::stub(crate::injector_core::internal::WhenCalled::will_execute_guard, rec_will_execute_guard)]
 fn c09_gate_pair() {
     fresh_world();
@@ -214,7 +214,7 @@ fn c09_gate_pair() {
 
 /// the async gate: `will_return_async` compares the text recorded by async_func! with async_return!'s
 #[kani::proof]
-#[kani::unwind(14)]
+#[kani::unwind(18)]
 #[kani::stub(crate::injector_core::internal::WhenCalled::will_execute_guard, rec_will_execute_guard)]
 fn c09_gate_async() {
     fresh_world();
@@ -239,7 +239,7 @@ fn c09_gate_async() {
 
 /// checked target paired with an unchecked replacement (and vice versa): the unchecked macros record ""
 #[kani::proof]
-#[kani::unwind(14)]
+#[kani::unwind(18)]
 #[kani::stub(crate::injector_core::internal::WhenCalled::will_execute_guard, rec_will_execute_guard)]
 fn c09_gate_mixed() {
     fresh_world();
@@ -270,6 +270,28 @@ fn c09_null() {
 }
 
 // ---- C10: the boolean gate ---------------------------------------------------------------------
+
+/// one (gate, expected type, offered type) case of the enumerated family (contracts/gen_sigpairs.py):
+/// identical types are installed, structurally different ones are refused before any OS event.
+pub(crate) fn pair_case(gate: u8, expected: &'static str, got: &'static str, same_type: bool) {
+    fresh_world();
+    refusal(bit(K_SIG_MISMATCH), !same_type);
+    let mut inj = InjectorPP::new();
+    if gate == 0 {
+        inj.when_called(arena_fp(0, expected)).will_execute_raw(int_fp(0x1000, got));
+    } else if gate == 1 {
+        inj.when_called(arena_fp(0, expected)).will_execute((int_fp(0x1000, got), CallCountVerifier::Dummy));
+    } else {
+        let builder = WhenCalledBuilderAsync { lib: &mut inj, when: WhenCalled::new(fp(os::mem_ptr(0))), expected_signature: expected };
+        builder.will_return_async(int_fp(0x1000, got));
+    }
+    unsafe {
+        assert!(same_type, "OBL:C09.gate.family.refuses: a replacement of a structurally different function type is never installed");
+        assert!(REC_CALLS == 1 && inj.guards.len() == 1, "OBL:C09.gate.family.accepts: a replacement of the identically written type is installed");
+    }
+    kani::cover!(true, "COVER:end");
+    std::mem::forget(inj);
+}
 
 /// one member of the enumerated signature family (contracts/gen_gate.py): the derivation says whether
 /// the return type is bool; the real gate must agree, and a refusal must precede every OS event.
